@@ -503,27 +503,54 @@ def check_dominance(mod) -> str | None:
     """xDSL's verify() does not check SSA dominance (verified by experiment); this does, for the
     single-block-region IR (func/scf) the anchored passes work on.  Returns a message or None."""
 
+    dom_cache: dict = {}
+
+    def dominators(region):
+        """block -> set of blocks that dominate it (regions with several blocks: cf.br / cf.cond_br successors)"""
+        key = id(region)
+        if key not in dom_cache:
+            blocks = list(region.blocks)
+            preds = {id(b): [] for b in blocks}
+            for b in blocks:
+                last = b.last_op
+                for succ in getattr(last, "successors", ()) or ():
+                    preds[id(succ)].append(b)
+            allb = {id(b) for b in blocks}
+            dom = {id(b): set(allb) for b in blocks}
+            dom[id(blocks[0])] = {id(blocks[0])}
+            changed = True
+            while changed:
+                changed = False
+                for b in blocks[1:]:
+                    ps = [dom[id(p)] for p in preds[id(b)]]
+                    new = ({id(b)} | set.intersection(*ps)) if ps else {id(b)}
+                    if new != dom[id(b)]:
+                        dom[id(b)], changed = new, True
+            dom_cache[key] = dom
+        return dom_cache[key]
+
     def visible_from(op: Operation, val: SSAValue) -> bool:
-        # walk up from the using op; the definition must be an earlier op of some enclosing block,
-        # or an argument of an enclosing block
+        # walk up from the using op; the definition must be an earlier op of some enclosing block, an argument of an enclosing
+        # block, or live in a block of the same region that dominates the enclosing block
         cur: Operation | None = op
         while cur is not None:
             blk = cur.parent_block()
             if blk is None:
                 return False
-            if isinstance(val, BlockArgument):
-                if val.owner is blk:
+            dblk = val.owner if isinstance(val, BlockArgument) else (val.owner.parent_block() if isinstance(val.owner, Operation) else None)
+            if dblk is blk:
+                if isinstance(val, BlockArgument):
                     return True
-            else:
-                d = val.owner
-                if isinstance(d, Operation) and d.parent_block() is blk:
-                    # must come strictly before `cur` in blk
-                    p = cur.prev_op
-                    while p is not None:
-                        if p is d:
-                            return True
-                        p = p.prev_op
-                    return False
+                # must come strictly before `cur` in blk
+                p = cur.prev_op
+                while p is not None:
+                    if p is val.owner:
+                        return True
+                    p = p.prev_op
+                return False
+            region = blk.parent_region()
+            if dblk is not None and region is not None and len(region.blocks) > 1 and dblk.parent_region() is region:
+                return id(dblk) in dominators(region)[id(blk)]
             cur = blk.parent_op()
         return False
 
